@@ -23,8 +23,8 @@ type User struct {
 	SItems []*SItem `gorm:"foreignKey:UserID"` // has many, pointer elements, soft-delete target
 	Pet    Pet      `gorm:"foreignKey:UserID"` // has one, struct field
 	Tags   []Tag    `gorm:"many2many:user_tags"`
-	Toys   []Toy    `gorm:"polymorphic:Owner"` // polymorphic has many
-	Badge  *Badge   `gorm:"polymorphic:Owner"` // polymorphic has one, pointer field
+	Toys   []Toy    `gorm:"polymorphic:Owner"`                      // polymorphic has many
+	Badge  *Badge   `gorm:"polymorphic:Owner;polymorphicValue:usr"` // polymorphic has one, pointer field, type value chosen by the application
 	// belongs to a record whose (single, string) key is assigned by the application
 	MedalCode *string
 	Medal     *Medal `gorm:"foreignKey:MedalCode;references:Code"`
@@ -33,8 +33,8 @@ type User struct {
 	HomeSlug string
 	Home     Page `gorm:"foreignKey:HomeSite,HomeSlug;references:Site,Slug"`
 	// soft-delete targets of the other relation kinds
-	SPet    *SPet  `gorm:"foreignKey:UserID"` // has one, pointer field, soft-delete target
-	SToys   []SToy `gorm:"polymorphic:Owner"` // polymorphic has many, soft-delete target
+	SPet    *SPet  `gorm:"foreignKey:UserID"`                               // has one, pointer field, soft-delete target
+	SToys   []SToy `gorm:"polymorphicType:OwnerType;polymorphicId:OwnerID"` // polymorphic has many (type / id columns named one by one), soft-delete target
 	SBossID *int64
 	SBoss   *SBoss // belongs to a soft-delete target
 	// many-to-many through a join model that has a soft-delete column (SetupJoinTable)
@@ -272,12 +272,13 @@ type relSpec struct {
 	jt        string // join table, with the columns naming the owner / the target
 	jtO, jtT  []string
 	pools     []poolSet
-	tables    []string // tables emptied per case
-	linkSQL   string   // -> (target key, owner key "table:key")
-	recSQL    string   // -> (target key, name, soft-deleted 0/1)
-	deadSQL   string   // softJoin: soft-deleted join rows -> (target key, owner key "table:key")
-	group     string   // model group (modelGroups) the kind needs
-	noNewKey  bool     // new records with an application-chosen key are not generated (covered by the plain many-to-many)
+	tables    []string          // tables emptied per case
+	linkSQL   string            // -> (target key, owner key "table:key")
+	recSQL    string            // -> (target key, name, soft-deleted 0/1)
+	deadSQL   string            // softJoin: soft-deleted join rows -> (target key, owner key "table:key")
+	group     string            // model group (modelGroups) the kind needs
+	polyVal   map[string]string // polymorphic: owner table -> type value, where the value is not the table name
+	noNewKey  bool              // new records with an application-chosen key are not generated (covered by the plain many-to-many)
 	// the relation references a natural key (okeys / tkeys) that is not the primary key: the rows also
 	// have a database-assigned primary key, which loaded values carry (looked up with raw SQL)
 	oSurr, tSurr *kf
@@ -342,7 +343,8 @@ var specs = []*relSpec{
 	{name: "poly_has_one", field: "Badge", store: fkTarget, single: true, poly: true, ownerT: reflect.TypeOf(User{}), targetT: reflect.TypeOf(Badge{}), ownerTab: "users", targetTab: "badges",
 		fks:     []kf{{"OwnerID", "owner_id", true}},
 		tables:  []string{"users", "teams", "badges"},
-		linkSQL: "SELECT CAST(id AS TEXT), COALESCE(owner_type,'') || ':' || owner_id FROM badges WHERE owner_id IS NOT NULL",
+		polyVal: map[string]string{"users": "usr"},
+		linkSQL: "SELECT CAST(id AS TEXT), CASE owner_type WHEN 'usr' THEN 'users' WHEN 'users' THEN 'users?' ELSE COALESCE(owner_type,'') END || ':' || owner_id FROM badges WHERE owner_id IS NOT NULL",
 		recSQL:  "SELECT CAST(id AS TEXT), name, 0 FROM badges"},
 	{name: "many2many_composite", field: "Parts", store: joinRows, composite: true, assigned: true, ownerT: reflect.TypeOf(Org{}), targetT: reflect.TypeOf(Part{}), ownerTab: "orgs", targetTab: "parts",
 		okeys: []kf{{"K1", "k1", false}, {"K2", "k2", false}}, tkeys: []kf{{"P1", "p1", false}, {"P2", "p2", false}},
@@ -403,10 +405,10 @@ var specs = []*relSpec{
 	// ---- keys that are not the conventional ID column ----
 	{name: "many2many_natural_keys", field: "Topics", store: joinRows, assigned: true, group: "articles", ownerT: reflect.TypeOf(Article{}), targetT: reflect.TypeOf(Topic{}), ownerTab: "articles", targetTab: "topics",
 		okeys: []kf{{"Code", "acode", false}}, tkeys: []kf{{"Slug", "tslug", false}}, oSurr: &kf{"ID", "id", true}, tSurr: &kf{"ID", "id", true},
-		jt: "article_topics", // (join columns: resolveJoin)
-		pools:   []poolSet{{"natural", codePool, slugPool}},
-		tables:  []string{"articles", "topics", "article_topics"},
-		recSQL:  "SELECT tslug, name, 0 FROM topics"},
+		jt:     "article_topics", // (join columns: resolveJoin)
+		pools:  []poolSet{{"natural", codePool, slugPool}},
+		tables: []string{"articles", "topics", "article_topics"},
+		recSQL: "SELECT tslug, name, 0 FROM topics"},
 	{name: "has_many_natural_key", field: "Remarks", store: fkTarget, group: "articles", ownerT: reflect.TypeOf(Article{}), targetT: reflect.TypeOf(Remark{}), ownerTab: "articles", targetTab: "remarks",
 		okeys: []kf{{"Code", "acode", false}}, oSurr: &kf{"ID", "id", true}, fks: []kf{{"ArticleCode", "art", false}},
 		pools:   []poolSet{{"natural", codePool, nil}},
@@ -415,9 +417,9 @@ var specs = []*relSpec{
 		recSQL:  "SELECT CAST(id AS TEXT), name, 0 FROM remarks"},
 	{name: "many2many_renamed_pk", field: "Books", store: joinRows, group: "authors", noNewKey: true, ownerT: reflect.TypeOf(Author{}), targetT: reflect.TypeOf(Book{}), ownerTab: "authors", targetTab: "books",
 		okeys: []kf{{"ID", "author_no", true}}, tkeys: []kf{{"ID", "book_no", true}},
-		jt: "author_books", // (join columns: resolveJoin)
-		tables:  []string{"authors", "books", "author_books"},
-		recSQL:  "SELECT CAST(book_no AS TEXT), name, 0 FROM books"},
+		jt:     "author_books", // (join columns: resolveJoin)
+		tables: []string{"authors", "books", "author_books"},
+		recSQL: "SELECT CAST(book_no AS TEXT), name, 0 FROM books"},
 }
 
 var (
@@ -467,6 +469,14 @@ func (s *relSpec) resolveJoin(db *gorm.DB) error {
 	}
 	s.linkSQL = "SELECT " + keyExpr(s.jtT...) + ", '" + s.ownerTab + ":' || " + keyExpr(s.jtO...) + " FROM " + s.jt
 	return nil
+}
+
+// typeValue: the polymorphic type value of an owner table.
+func (s *relSpec) typeValue(table string) string {
+	if v, ok := s.polyVal[table]; ok {
+		return v
+	}
+	return table
 }
 
 // deletesRecords: an Unscoped association call deletes the targets whose link it removes
@@ -638,7 +648,7 @@ func (s *relSpec) tryLink(ok, tk string) error {
 	case s.store == fkOwner:
 		_, err = H.SQL.Exec("UPDATE "+table+" SET "+setAll(kcols(s.fks))+" WHERE "+eqAll(kcols(s.okeys)), append(ta, oa...)...)
 	case s.poly:
-		_, err = H.SQL.Exec("UPDATE "+s.targetTab+" SET "+setAll(kcols(s.fks))+", owner_type = ? WHERE "+eqAll(kcols(s.tkeys)), append(append(oa, table), ta...)...)
+		_, err = H.SQL.Exec("UPDATE "+s.targetTab+" SET "+setAll(kcols(s.fks))+", owner_type = ? WHERE "+eqAll(kcols(s.tkeys)), append(append(oa, s.typeValue(table)), ta...)...)
 	default:
 		_, err = H.SQL.Exec("UPDATE "+s.targetTab+" SET "+setAll(kcols(s.fks))+" WHERE "+eqAll(kcols(s.tkeys)), append(oa, ta...)...)
 	}
@@ -890,7 +900,7 @@ func (s *relSpec) setRelation(owner reflect.Value, ok string, ts []targ) {
 		v := s.newTarget(t)
 		if s.store == fkTarget {
 			if s.poly {
-				v.FieldByName("OwnerType").SetString(table)
+				v.FieldByName("OwnerType").SetString(s.typeValue(table))
 			}
 			setKey(v, s.fks, key)
 		}
